@@ -32,6 +32,7 @@ def setup_engine(seed=0):
     import datetime
     for k in (type(None), bool, int, float, str, bytes, list, tuple, dict, set, datetime.datetime, type, object):
         E.classes.cid(k)
+    E.classes.open_bases = set([bb.Struct, bb.Union])
     install_spec_models(E)
     return E
 
@@ -240,6 +241,15 @@ def decode_term(E, p, model, t, depth=0):
             uo = z3.Function('tz_utcoffset', Val, Val, Val)
             off = model.eval(uo(tzv, t), model_completion=True)
             desc['utcoffset'] = off.decl().name()
+            ts = z3.Function('TimedeltaSeconds', Val, vals.FP)
+            secs = model.eval(ts(off), model_completion=True)
+            try:
+                f = vals._fp_to_py(secs)
+                import math
+                if not (math.isnan(f) or math.isinf(f)) and abs(f) < 86400:
+                    desc['utcoffset_seconds'] = float(int(f)) if abs(f) >= 1 else (0.0 if f == 0 else (60.0 if f > 0 else -60.0))
+            except Exception:
+                pass
         return desc
     return vals.decode_val(model, t, depth)
 
@@ -264,6 +274,8 @@ class Verifier:
         s = p.solver
         s.set('timeout', self.timeout)
         s.push()
+        for qd in p.qdefs:
+            s.add(qd)
         s.add(z3.Not(g))
         r = s.check()
         model_json = None
@@ -314,11 +326,7 @@ class Verifier:
             argstore['cur'] = argsv
             req = con.__dict__.get('requires')
             if req is not None:
-                E.merge += 1
-                try:
-                    r = E.call_function(_fn(req), list(argsv.values()), {})
-                finally:
-                    E.merge -= 1
+                r = eval_spec(E, req, list(argsv.values()))
                 b = E.truth(r)
                 p.assume(I._zb(b))
                 if p.check() == z3.unsat:
@@ -350,11 +358,7 @@ class Verifier:
             exp_fn = con.__dict__.get('expected')
             goal = z3.BoolVal(True)
             if exp_fn is not None:
-                E.merge += 1
-                try:
-                    exp = E.call_function(_fn(exp_fn), list(argsv.values()), {})
-                finally:
-                    E.merge -= 1
+                exp = eval_spec(E, exp_fn, list(argsv.values()))
                 if not isinstance(exp, I.SOutcome):
                     raise I.Unsupported('expected() did not return an outcome: %r' % (exp,))
                 if kind == 'return':
@@ -363,20 +367,22 @@ class Verifier:
                     goal = z3.And(I._zb(exp.israise), exp.clsid == E.classes.cid(v.cls))
             ens = con.__dict__.get('ensures')
             if ens is not None:
-                E.merge += 1
-                try:
-                    res = v if kind == 'return' else I.C(None)
-                    israise = I.C(kind == 'raise')
-                    exc = I.C(v.cls if kind == 'raise' else None)
-                    r = E.call_function(_fn(ens), list(argsv.values()) + [res, exc], {})
-                finally:
-                    E.merge -= 1
+                res = v if kind == 'return' else I.C(None)
+                exc = I.C(v.cls if kind == 'raise' else None)
+                r = eval_spec(E, ens, list(argsv.values()) + [res, exc])
                 goal = z3.And(goal, I._zb(E.truth(r)))
             desc = '%s %s' % (kind, v.cls.__name__ if kind == 'raise' else '')
             ob = self.prove(E, p, name + ':post', goal, 'post', rep, argsv, con)
             ob.outcome = desc
             rep.failed.extend([ob] if ob.status != 'discharged' else [])
 
+        def on_require(goal, name):
+            p = E.path
+            ob = self.prove(E, p, '%s#path%d:%s' % (con.target, pathno[0] + 1, name), goal, 'pre', rep,
+                            argstore.get('cur'), con)
+            rep.failed.extend([ob] if ob.status != 'discharged' else [])
+        E.on_require = on_require
+        install_contracts(E)
         try:
             rep.paths = E.explore(run, on_path)
         except I.Unsupported as e:
@@ -396,3 +402,131 @@ def _fn(f):
     if isinstance(f, (staticmethod, classmethod)):
         return f.__func__
     return f
+
+
+def eval_spec(E, f, args, unfold=True):
+    """Evaluate a SpecPy function in merge mode.  Failure conditions of
+    specification code are not collected (specifications are total); with
+    ``unfold=False`` recursive specification symbols stay folded."""
+    old_fc, old_pc = E.fail_conds, getattr(E, 'pre_conds', None)
+    old_ud = E.unfold_depth
+    E.fail_conds, E.pre_conds = None, None
+    if not unfold:
+        E.unfold_depth = 1000
+    E.merge += 1
+    try:
+        return E.call_function(_fn(f), list(args), {})
+    finally:
+        E.merge -= 1
+        E.fail_conds, E.pre_conds = old_fc, old_pc
+        E.unfold_depth = old_ud
+
+
+def cofactor(t, cond):
+    """Simplify the ite-tree ``t`` under the assumption ``cond`` (syntactic:
+    tests identical to cond / its negation are resolved)."""
+    ncond = z3.simplify(z3.Not(cond))
+    def rec(x, depth):
+        if depth > 40 or not (z3.is_app(x) and x.decl().kind() == z3.Z3_OP_ITE):
+            return x
+        c = z3.simplify(x.arg(0))
+        if c.eq(cond):
+            return rec(x.arg(1), depth + 1)
+        if c.eq(ncond):
+            return rec(x.arg(2), depth + 1)
+        return z3.If(x.arg(0), rec(x.arg(1), depth + 1), rec(x.arg(2), depth + 1))
+    return rec(t, 0)
+
+
+class ContractAdapter:
+    """Modular use of a contract at a call site: the callee's body is not
+    looked at; its ``requires`` becomes an obligation, its ``expected`` /
+    ``ensures`` the only knowledge about the result."""
+
+    def __init__(self, con, fn):
+        self.con = con
+        self.fn = fn
+
+    def apply(self, E, args, kwargs):
+        con = self.con
+        names = [n for n in con.params]
+        node = I.func_ast(self.fn)
+        loc = E.bind_args(node.args, self.fn, args, kwargs)
+        vals_ = [loc[n] for n in names if n in loc and not isinstance(con.params[n], CT.Default)]
+        req = con.__dict__.get('requires')
+        unfold = bool(con.opts.get('unfold_at_call'))
+        if req is not None:
+            r = eval_spec(E, req, vals_, unfold)
+            b = I._zb(E.truth(r))
+            if E.merge:
+                if getattr(E, 'pre_conds', None) is not None:
+                    E.pre_conds.append(b)
+            else:
+                E.require(b, 'pre:%s' % con.target.split(':')[1])
+        exp_fn = con.__dict__.get('expected')
+        if exp_fn is None:
+            return self.apply_relational(E, vals_)
+        exp = eval_spec(E, exp_fn, vals_, unfold)
+        if not isinstance(exp, I.SOutcome):
+            raise I.Unsupported('expected() of %s did not return an outcome' % con.target)
+        israise = I._zb(exp.israise)
+        raises = con.opts.get('raises') or []
+        if E.merge:
+            sr = z3.simplify(israise)
+            if not z3.is_false(sr):
+                k = self._exc_class(E, exp, raises)
+                if E.fail_conds is not None:
+                    E.fail_conds.append((sr, k, 'callee ' + con.target.split(':')[1]))
+            # the value is only meaningful when the callee does not raise
+            return I.T(cofactor(exp.val, z3.simplify(z3.Not(sr))))
+        if E.path.branch(israise, 'callee-raises:' + con.target.split(':')[1]):
+            k = self._exc_class(E, exp, raises)
+            raise I.PyRaise(I.SExc(k, [I.T(E.path.fresh('excmsg'))]))
+        return I.T(exp.val)
+
+    def apply_relational(self, E, vals_):
+        """Contract given by ``ensures`` only: the result is a fresh value
+        about which exactly ``ensures`` is known; the declared ``raises``
+        classes are possible outcomes."""
+        con = self.con
+        ens = con.__dict__.get('ensures')
+        if ens is None:
+            raise I.Unsupported('contract %s has neither expected() nor ensures()' % con.target)
+        raises = con.opts.get('raises') or []
+        if raises:
+            raise I.Unsupported('relational contract with exceptional outcomes: %s' % con.target)
+        r = I.T(E.path.fresh('res_' + con.target.split(':')[1].replace('.', '_')))
+        b = eval_spec(E, ens, list(vals_) + [r, I.C(None)], bool(con.opts.get('unfold_at_call')))
+        E.scoped_assume(I._zb(E.truth(b)))
+        return r
+
+    def _exc_class(self, E, exp, raises):
+        c = z3.simplify(exp.clsid)
+        if z3.is_int_value(c):
+            return E.classes.by_id[c.as_long()]
+        if len(raises) == 1:
+            return raises[0]
+        if E.merge:
+            raise I.Unsupported('callee may raise several classes inside a summary')
+        conds = [exp.clsid == E.classes.cid(k) for k in raises]
+        if not conds:
+            raise I.Unsupported('contract %s: exception class not determined; declare raises=[...]' % self.con.target)
+        j = E.path.choose(conds, ['exc:' + k.__name__ for k in raises])
+        return raises[j]
+
+
+def install_contracts(E, skip_target=None):
+    """Register every contract (except the one under proof at top level --
+    handled by inlining the body directly) for modular use."""
+    E.contracts = {}
+    E.virtual = {}
+    for target, con in CT.REGISTRY.items():
+        if con.opts.get('canary'):
+            continue
+        try:
+            fn, owner = CT.resolve(target)
+        except Exception:
+            continue
+        E.contracts[fn] = ContractAdapter(con, fn)
+        if con.opts.get('virtual'):
+            E.virtual[(owner, fn.__name__)] = fn
